@@ -265,9 +265,38 @@ def g_rules(p: Project, rep: Report):
             rep.note("G-R1 undecided: OFX Home layer is not a dict display")
     # FI db then user file
     m = p.module(OFXGET)
-    reads = [n for n in ast.walk(m.tree) if isinstance(n, ast.Call) and isinstance(n.func, ast.Attribute) and n.func.attr == "read" and text(n.func.value) == "USERCFG" and isinstance(parent(parent(n)), ast.Module)]
-    ok = bool(reads) and all(n.args and text(n.args[0]) == "[CONFIGPATH, USERCONFIGPATH]" for n in reads)
-    rep.check("G-R1", "USERCFG.read:fi-db-then-user-file", ok, f"USERCFG is loaded from {[text(n.args[0]) for n in reads if n.args]}: the user's file must be read after (and so override) the bundled FI database" if not ok else "", gloc(p, reads[0] if reads else m.tree))
+    # the sources loaded into USERCFG at import time, in order: USERCFG.read([a, b]) / successive USERCFG.read(x) and
+    # USERCFG.read_dict(d) statements / USERCFG = <helper>(UserConfig(), (a, b)) whose helper reads its paths in turn
+    from .source import Func as _Func
+
+    seq = []
+    first_node = None
+    for st in m.tree.body:
+        if isinstance(st, (ast.FunctionDef, ast.AsyncFunctionDef, ast.ClassDef)):
+            continue
+        for n in ast.walk(st):
+            if not isinstance(n, ast.Call):
+                continue
+            if isinstance(n.func, ast.Attribute) and n.func.attr in ("read", "read_dict", "read_file", "read_string") and text(n.func.value) == "USERCFG" and n.args:
+                first_node = first_node or n
+                a0 = n.args[0]
+                seq += [text(e) for e in a0.elts] if isinstance(a0, (ast.List, ast.Tuple)) else [text(a0)]
+            elif isinstance(st, (ast.Assign, ast.AnnAssign)) and n is st.value and isinstance(n.func, ast.Name) and any(isinstance(t_, ast.Name) and t_.id == "USERCFG" for t_ in (st.targets if isinstance(st, ast.Assign) else [st.target])):
+                h_ = p.resolve(OFXGET, n.func.id)
+                if isinstance(h_, _Func) and len(n.args) == 2 and isinstance(n.args[1], (ast.List, ast.Tuple)):
+                    hp_ = [a.arg for a in h_.node.args.args]
+                    in_turn = any(isinstance(l_, ast.For) and text(l_.iter) == hp_[1] and any(isinstance(c_, ast.Call) and isinstance(c_.func, ast.Attribute) and c_.func.attr == "read" and text(c_.func.value) == hp_[0] for c_ in ast.walk(l_)) for l_ in ast.walk(h_.node))
+                    whole = any(isinstance(c_, ast.Call) and isinstance(c_.func, ast.Attribute) and c_.func.attr == "read" and text(c_.func.value) == hp_[0] and c_.args and text(c_.args[0]) == hp_[1] for c_ in ast.walk(h_.node))
+                    if len(hp_) == 2 and (in_turn or whole):
+                        first_node = first_node or n
+                        seq += [text(e) for e in n.args[1].elts]
+    if not seq:
+        rep.note("G-R1 undecided: how USERCFG is loaded at import time is not recognised")
+    else:
+        fi_like = [i for i, x in enumerate(seq) if x in ("CONFIGPATH", "LIBCFG")]
+        user_ = [i for i, x in enumerate(seq) if x == "USERCONFIGPATH"]
+        ok = bool(user_) and bool(fi_like) and max(fi_like) < min(user_) and set(seq) <= {"CONFIGPATH", "LIBCFG", "USERCONFIGPATH"}
+        rep.check("G-R1", "USERCFG.read:fi-db-then-user-file", ok, f"USERCFG is loaded from {seq}: the user's file must be read after (and so override) the bundled FI database" if not ok else "", gloc(p, first_node))
     mainf = _fn(p, "main")
     ok = any(isinstance(c, ast.Call) and text(c.func) == "merge_config" and len(c.args) == 2 and text(c.args[1]) == "USERCFG" for c in own_nodes(mainf))
     rep.check("G-R1", "main:merges-USERCFG", ok, "" if ok else "main() does not merge the layered USERCFG", gloc(p, mainf))
